@@ -11,11 +11,17 @@ NA = {
     "C04": "whole-history growth bound of a stateful allocator whose representation invariant (C03 core) is not established by any per-call contract within reach",
     "C05": "thread start/exit is a clone trampoline in global_asm, a kernel-written clear-tid word and a two-party hand-shake; correctness is an interleaving argument outside both verifiers",
     "C06": "resource release happens in assembly after the Rust stack is gone and depends on the order of two parties; no sequential contract over the Rust fragments implies exactly-once release",
-    "C16": "delivery/ordering/blocking/timeouts are kernel behaviour and wall-clock; the one code-only clause (cmsg walk) computes with integer-to-pointer casts neither verifier handles without spurious failures",
 }
 
 # property -> check description; filled in as units are built
 CHECKS = {
+    "C16": {
+        "category": "model_checking",
+        "technique": "bounded Kani harnesses on the real MsgHdrBorrow::control_messages / ControlMessageIterator (cmsg macros) under CBMC's pointer checks; control buffers as exactly-sized objects so that any read outside the supplied buffer is a failed check",
+        "text": "PARTIAL and bounded — the ancillary-data clause only: for control buffers that one SCM_RIGHTS message with 0, 1 or 2 descriptors fills exactly, for two messages back to back, and for arbitrary bytes under the kernel's record contract with every supplied length 0..=40, the walk yields exactly the SCM_RIGHTS messages in the buffer, in order, with exactly their descriptors, never dereferences or yields anything outside the supplied buffer, and never panics. Stream delivery, ordering, blocking, timeouts, try-variants and the kernel's side of sendmsg/recvmsg are kernel behaviour and wall-clock: not decided.",
+        "note": "One clause of C16; everything about schedules, payload sizes and timing is outside what contracts on this code decide. Bounds: buffers <= 48 bytes, <= 2 messages, <= 2 descriptors. The check found the addr_of! defect in cmsg_nxthdr!/__mhdr_end! (fixed in 912e1c2).",
+        "design_ref": "§4.C16, §9.7",
+    },
     "C08": {
         "category": "proof",
         "technique": "Verus contracts on the mechanically extracted real bodies of all 15 functions of tiny-start/src/symbols/mem.rs over one ghost byte-addressed memory (raw pointers read as addresses, rule R7), bit-vector lemmas for the alignment masks and the word broadcast; native companion for failing-input witnesses and translation validation (bounded, not counted)",
